@@ -306,7 +306,7 @@ def dur_scenarios(tier):
             # (a) the monthly peak concrete (barely above a flat month / well above it), a load on the previous day symbolic
             for pk in ((f + 50.0, 5000.0) if tier == 'quick' else (f + 50.0, f + 0.5, 5000.0)):
                 scs.append(DurScenario(m, sign, 0, flat, (-18,), {'q_peak': pk}))              # previous day = previous month
-                if tier == 'thorough' or pk == 5000.0:
+                if pk == 5000.0:      # same-month symbolic load (symbolic average): decidable for a peak well above the base only (z3 unknown at 0.5 W above it)
                     scs.append(DurScenario(m, sign, 10 if tier == 'quick' else last, flat, (-20,), {'q_peak': pk}))   # previous day in the same month
                     scs.append(DurScenario(m, sign, 0, 'zero', (-18,), {'q_peak': pk}))
             # (b) the monthly peak symbolic, the previous-day load concrete
